@@ -33,8 +33,9 @@ def build(wspec, history, D):
 
     reset_globals(contraction=wspec.get("contraction", True))
     w = World.build(wspec)
-    m = Model(wspec, D=D)
+    m = Model(wspec, D=wspec.get("D", D))
     m.phase_sign = phase_sign()
+    history = [[a, [], "ok"] for a in wspec.get("prefix", [])] + list(history)
     for item in history:
         a, script = item[0], item[1]
         dv = DimView(w)
@@ -244,6 +245,22 @@ def _expand_state(task):
     from .judge import judge
     from .observe import Obs
 
+    import signal
+
+    def _alarm(sig, frm):
+        raise HarnessError("task watchdog: one state expansion took longer than 600 s")
+    signal.signal(signal.SIGALRM, _alarm)
+    signal.alarm(600)
+    try:
+        return _expand_state_inner(task)
+    finally:
+        signal.alarm(0)
+
+
+def _expand_state_inner(task):
+    from .judge import judge
+    from .observe import Obs
+
     wi, history, do_core = task
     spec = _SPEC
     wspec = spec["worlds"][wi][1]
@@ -285,7 +302,8 @@ def _expand_state(task):
                     T = make_transition(w0, m0, o0, canon0, a, script, res, w1, prop=spec["prop"])
                     V = judge(T)
                     for extra in spec.get("extra_judges", []):
-                        V.extend(extra(T))
+                        from .judge import EXTRA
+                        V.extend(EXTRA[extra](T))
                 if T.exp.get("overflow"):
                     out["overflow"] += 1
                 k = a[0]
@@ -342,9 +360,10 @@ def explore(spec_name, tier, seed, nproc=None, log=print):
         for wi in range(len(spec["worlds"])):
             frontier.append((wi, []))
         # depth-0 canonical keys are computed by the workers as children of nothing: seed them lazily
+        wdepth = [w[2] if len(w) > 2 else depth for w in spec["worlds"]]
+        depth = max(wdepth)
         for d in range(depth + 1):
-            do_core = d < depth
-            tasks = [(wi, h, do_core) for wi, h in frontier]
+            tasks = [(wi, h, d < wdepth[wi]) for wi, h in frontier if d <= wdepth[wi]]
             results = []
             aborted = False
             for r in pool.imap_unordered(_expand_state, tasks, chunksize=1):
